@@ -1,7 +1,7 @@
 """C06 - printing a parsed AST and parsing it again gives the same AST.
 
 Universe: every AST the parser returns on (a) all terms up to the node bound of
-a grammar covering every expression node kind, (b) one-argument calls of all 27
+a grammar covering every expression node kind, (b) the operator-pair matrix (every nesting of every pair of binary operators) and one-argument calls of all 27
 built-in functions on every argument shape the type checker accepts, (c) the
 property skeleton universe (all scopes / patterns, disjunction widths 1..4,
 aliases, predicates), (d) specifications of 1-3 properties, (e) a grid of time
@@ -151,8 +151,13 @@ def run(unit):
                 continue
             _term(t, sort, r, i)
     elif kind == 'functions':
+        from hplmc.ref import types as T
+        from hplmc.universe import operator_pair_matrix
+
         for i, t in enumerate(function_family()):
             _term(t, 'B' if t[0] == 'bin' and t[1] in ('<', '=') else 'X', r, i)
+        for i, t in enumerate(operator_pair_matrix()):
+            _term(t, 'B' if T.definite(t) == T.B else 'X', r, i)
     elif kind == 'props':
         from hplmc.checks import c11
 
